@@ -170,6 +170,17 @@ func main() {
 	}
 	c := gen.NewCorpus(rng, *thorough, n2, extra)
 	env := c.Env
+	// declarations whose Go source the ty universe cannot spell (blank-only structs, field TAGS on unnamed
+	// struct types): written literally, keyed by package.Name; their ty shape is what the values see
+	tagged := "struct {\n\tA struct {\n\t\tX int    `json:\"x,omitempty\" pct:\"100%\"`\n\t\tY string `re:\"a\\\\b %d\" q:\"say \\\"hi\\\"\"`\n\t}\n" +
+		"\tL []struct {\n\t\tX int `k:\"%s %v\"`\n\t}\n\tM map[string]struct {\n\t\tY string `path:\"c:\\\\dir\"`\n\t}\n" +
+		"\tP *struct {\n\t\tX int `t:\"50%% \\\\n\"`\n\t}\n\tN int `plain:\"n\"`\n}"
+	localSrc := map[string]string{"q0.LBl": "struct {\n\t_ struct{}\n\t_ [0]int\n}", "q0.LTg": tagged, "golib.Tg": tagged} // LBl: blanks only, zero size
+	taggedTy := func() *ty.Ty {
+		b, f := ty.B, ty.F
+		return ty.St(f("A", ty.St(f("X", b("int")), f("Y", b("string")))), f("L", ty.Sl(ty.St(f("X", b("int"))))),
+			f("M", ty.M(b("string"), ty.St(f("Y", b("string"))))), f("P", ty.P(ty.St(f("X", b("int"))))), f("N", b("int")))
+	}
 	// Imported packages whose DECLARED NAME is not the tail of their import path (a major-version
 	// directory, a directory with a dash): the text must spell their types with the declared name, which
 	// is the name an importing package sees. Names are distinct from every other package of the corpus
@@ -191,6 +202,8 @@ func main() {
 		li := addDecl("LI", "golib", b("int"))                                                                           // nd+7
 		la := addDecl("LA", "golib", ty.Ar(2, ty.N(vk)))                                                                 // nd+8
 		dur := addDecl("Dur", "golib", b("int64"))                                                                       // a time.Duration-like imported named basic
+		tg := addDecl("Tg", "golib", taggedTy())                                  // fields of unnamed struct types with TAGS (quotes, backslashes, %)
+		ks := addDecl("KS", "ext3", ty.St(f("F", b("string")), f("G", b("string")))) // a key type whose %v renderings can coincide
 		cfg := addDecl("Cfg", "golib", ty.St(f("Level", ty.P(ty.N(li))), f("Wait", ty.P(ty.N(dur))), f("N", ty.P(ty.N(19)))))
 		// instantiations of generic types (package gpkg is written literally below; an instantiation is, for
 		// values, the struct it expands to; its Go spelling is its name)
@@ -206,6 +219,9 @@ func main() {
 			ty.N(l), ty.P(ty.N(l)), ty.Sl(ty.N(l)), ty.N(ls), ty.N(li), ty.P(ty.N(li)), ty.Sl(ty.N(li)), ty.M(ty.N(li), ty.N(l)), ty.N(la), ty.P(ty.N(la)),
 			ty.St(f("A", ty.N(v)), f("B", ty.P(ty.N(l))), f("C", ty.N(vs)), f("D", ty.N(ls)), f("E", ty.N(5)), f("F", ty.N(17))),
 			ty.P(ty.St(f("A", ty.P(ty.N(v))), f("M", ty.N(vm)))), ty.M(b("string"), ty.Sl(ty.N(l))),
+			ty.N(tg), ty.P(ty.N(tg)), ty.Sl(ty.N(tg)), ty.M(b("string"), ty.N(tg)), ty.St(f("T", ty.N(tg)), f("P", ty.P(ty.N(tg)))),
+			ty.M(ty.N(ks), b("int")), ty.M(ty.N(ks), ty.Sl(b("string"))), ty.M(ty.Ar(2, b("string")), b("int")), ty.M(ty.Ar(3, b("string")), ty.P(b("int"))),
+			ty.St(f("M", ty.M(ty.N(ks), ty.N(ks)))),
 			// struct FIELDS of type pointer-to-named-basic (local, imported, Duration-like): non-nil values take genField's pointer case
 			ty.St(f("A", ty.P(ty.N(0))), f("B", ty.P(ty.N(1))), f("C", ty.P(ty.N(2))), f("D", ty.P(ty.N(3))), f("E", ty.P(ty.N(19))),
 				f("F", ty.P(ty.N(li))), f("G", ty.P(ty.N(dur))), f("H", ty.P(ty.N(29))), f("I", ty.P(ty.N(30)))),
@@ -223,7 +239,6 @@ func main() {
 	// stage 2 imports q0 and the texts must spell them q0.Name): empty struct, struct with only blank fields,
 	// blank field between fields, ordinary / recursive struct, named slice / map / pointer / basic, and structs
 	// with unexported fields (accepted for local structs; outside the property: ops `gostringx`).
-	localSrc := map[string]string{"LBl": "struct {\n\t_ struct{}\n\t_ [0]int\n}"} // blanks only, zero size
 	var localTypes []*ty.Ty
 	{
 		b, f := ty.B, ty.F
@@ -243,6 +258,8 @@ func main() {
 		lp := addL("LP", ty.P(ty.N(ord)), false)
 		lni := addL("LNI", b("int"), false)
 		lu := addL("LU", ty.St(f("A", b("int")), f("b", b("string")), f("c", ty.P(b("int")))), true)
+		ltg := addL("LTg", taggedTy(), false)
+		lks := addL("LKS", ty.St(f("N", b("int")), f("F", b("string")), f("G", b("string"))), false)
 		lur := addL("LUR", ty.St(f("V", b("int")), f("next", ty.P(ty.N(len(env.Decls))))), true)
 		localTypes = []*ty.Ty{
 			ty.N(mark), ty.P(ty.N(mark)), ty.Sl(ty.N(mark)), ty.Ar(2, ty.N(mark)), ty.M(b("int8"), ty.N(mark)), ty.M(ty.N(mark), b("int")),
@@ -252,6 +269,7 @@ func main() {
 			ty.St(f("M", ty.N(mark)), f("B", ty.N(bl)), f("K", ty.N(lm)), f("S", ty.Sl(ty.N(mark))), f("R", ty.Ar(2, ty.N(mark))), f("O", ty.N(ord)),
 				f("P", ty.N(lp)), f("L", ty.N(lsl)), f("N", ty.P(ty.N(lni))), f("X", ty.N(5)), f("Q", ty.P(ty.N(rec)))),
 			ty.P(ty.St(f("A", ty.N(mark)), f("B", ty.P(ty.N(mark))), f("C", ty.N(b2)))),
+			ty.N(ltg), ty.P(ty.N(ltg)), ty.Sl(ty.N(ltg)), ty.M(b("int"), ty.N(ltg)), ty.M(ty.N(lks), b("string")), ty.M(ty.N(lks), ty.N(mark)),
 			ty.N(lu), ty.P(ty.N(lu)), ty.Sl(ty.N(lu)), ty.N(lur), ty.P(ty.N(lur)), ty.M(b("string"), ty.N(lur)), ty.St(f("U", ty.N(lu)), f("R", ty.P(ty.N(lur)))),
 		}
 		// local types first: they must live in q0, the other types are spread around them
@@ -306,7 +324,11 @@ func main() {
 		}
 		for _, d := range env.Decls {
 			if d.Pkg == e.name {
-				fmt.Fprintf(&sb, "type %s %s\n", d.Name, d.Under.Go(env, e.name))
+				src, ok := localSrc[d.Pkg+"."+d.Name]
+				if !ok {
+					src = d.Under.Go(env, e.name)
+				}
+				fmt.Fprintf(&sb, "type %s %s\n", d.Name, src)
 			}
 		}
 		write(filepath.Join(*out, filepath.FromSlash(e.dir), "x.go"), sb.String())
@@ -331,7 +353,7 @@ func main() {
 	newQ() // q0 declares the local types
 	for _, d := range env.Decls {
 		if d.Pkg == gs.LocalPkg {
-			src, ok := localSrc[d.Name]
+			src, ok := localSrc[d.Pkg+"."+d.Name]
 			if !ok {
 				src = d.Under.Go(env, gs.LocalPkg)
 			}
@@ -464,6 +486,19 @@ func main() {
 		}
 		for k := 0; k < nwide; k++ {
 			add("wide", gs.Wide(env, rng, t, 3))
+		}
+		if u := env.Under(t); u.K == ty.Map {
+			// distinct struct / array keys whose %v renderings coincide ({"a b","c"} and {"a","b c"})
+			if ks := gs.CollidingKeys(env, u.Key, vg.Pool(u.Key)[0]); ks != nil {
+				vp := vg.Pool(u.Elem)
+				for n := 2; n <= len(ks); n++ {
+					mv := &ty.Val{K: ty.VMap}
+					for j := 0; j < n; j++ {
+						mv.Elems = append(mv.Elems, ks[j], vp[(j+n)%len(vp)])
+					}
+					add("colliding-keys", mv)
+				}
+			}
 		}
 		emit := func(x *ty.Val) {
 			id++
